@@ -108,8 +108,16 @@ class TokenManager(interfaces.RequestInterface, interfaces.TokenManager):
         for (_, _r), (_, stopper) in self.incoming_requests.items():
             if remote == _r:
                 stoppers.append(stopper)
+        # An application's callback failing in one of them must not keep the
+        # others from being told
+        failures = []
         for stopper in stoppers:
-            stopper()
+            try:
+                stopper()
+            except Exception as e:
+                failures.append(e)
+        if failures:
+            raise failures[0]
 
     def process_request(self, request):
         key = (request.token, request.remote)
